@@ -21,6 +21,12 @@ def run(rep, tier, seed, replay):
     for m in rows:
         if m["kind"] == "mismatch":
             rep.violation({"check": m["check"], "proto": m["proto"], "schedule": m["buf"] if not m["buf"].startswith(("cut", "random")) else m["buf"][:3]}, m)
+    # the value-tree universe (payloads on both sides of the 4 096-byte eager-read limit, containers around 15 / 127 elements,
+    # deep nesting) read from a stream -- whole and byte-wise with a Pending before every byte -- against the in-memory decode
+    vsum, vmism, vst = rt.drive_vectors(tier, "universe")
+    for m in vmism:
+        if m["check"] in ("adec-err", "adec-value", "adec-taken", "adec-crash"):
+            rep.violation(dict(rt.cls_of(m), schedule=str(m.get("buf", "-")).split("/")[-1]), m)
     events, runs, rejections, crashed = rt.validate_trace(trace, module="AsyncTrace")
     with open(trace) as f:
         sample = [f.readline().strip()[:300] for _ in range(6)]
@@ -36,7 +42,7 @@ def run(rep, tier, seed, replay):
         "rule": "one case = (message, protocol, delivery schedule): whole, byte-wise, byte-wise with a Pending before every byte, "
                 "seeded random chunk sizes with Pendings, every way of cutting a message of <= 10 (quick) / 13 (thorough) bytes into "
                 "chunks, and end-of-stream at every offset; each compared with the in-memory decode of the same bytes",
-        "model": mc, "inductive_invariant": ind, "drive": summary, "poll_events_validated": events,
+        "model": mc, "inductive_invariant": ind, "universe_vectors_async": {"vectors": vsum["vectors"], "evaluations": vsum["evaluations"]}, "drive": summary, "poll_events_validated": events,
         "exhaustive": False,
     }
     rep.assumptions = ["request sequences of the async protocols are modelled in spec/AsyncReads.tla and bound to the code by "
